@@ -134,10 +134,10 @@ class Sim:
             common["alpn_protocols"] = list(cfg["alpn"])
         ckw = dict(common)
         skw = dict(common)
-        for k in ("max_data", "max_stream_data"):
-            if ("c_" + k) in cfg:
+        for k in ("max_data", "max_stream_data", "idle_timeout"):
+            if cfg.get("c_" + k) is not None:
                 ckw[k] = cfg["c_" + k]
-            if ("s_" + k) in cfg:
+            if cfg.get("s_" + k) is not None:
                 skw[k] = cfg["s_" + k]
         if cfg.get("client_version"):
             ckw["original_version"] = cfg["client_version"]
